@@ -377,7 +377,9 @@ def gaussian_lp(xrow, mu, logstd):
     return -rv(1) / 2 * q - sum((toreal(s) for s in logstd), rv(0)) - rv(n) / 2 * T.logf(2 * T.PI)
 
 
-def normal_harness(kind, ev):
+def normal_harness(kind, ev, ctx_shape=None):
+    """ctx_shape (ConditionalDiagonalNormal only): shape of one context row as the (identity) encoder returns it; the last dimension is split into
+    means | log-stds, each reshaped to the event shape (default: a flat row of 2n numbers)"""
     n = int(np.prod(ev))
     B = 2
 
@@ -388,7 +390,7 @@ def normal_harness(kind, ev):
             d = DN.DiagonalNormal(ev); c = None
             d._parameters["mean_"] = h.inp("p:mean_", (1, n), owner="param"); d._parameters["log_std_"] = h.inp("p:log_std_", (1, n), owner="param")
         else:
-            d = DN.ConditionalDiagonalNormal(ev); c = h.inp("context", (B, 2 * n))
+            d = DN.ConditionalDiagonalNormal(ev); c = h.inp("context", (B,) + (tuple(ctx_shape) if ctx_shape else (2 * n,)))
         h.d, h.c = d, c
         x = h.inp("x", (B,) + tuple(ev))
         lp = d.log_prob(x, context=c)
@@ -400,6 +402,9 @@ def normal_harness(kind, ev):
         if kind == "StandardNormal": return [rv(0)] * n, [rv(0)] * n
         if kind == "DiagonalNormal": return list(P(h.d.mean_).reshape(-1)), list(P(h.d.log_std_).reshape(-1))
         pc = P(h.c)
+        if ctx_shape:
+            half = ctx_shape[-1] // 2
+            return list(pc[b][..., :half].reshape(-1)), list(pc[b][..., half:].reshape(-1))
         return list(pc[b, :n]), list(pc[b, n:])
 
     def post(h, ctx, value):
@@ -462,18 +467,23 @@ def normal_harness(kind, ev):
         lp, mean, d, c, x = r
         if kind == "StandardNormal": mu = torch.zeros(B, n); ls = torch.zeros(B, n)
         elif kind == "DiagonalNormal": mu = d.mean_.detach().expand(B, n); ls = d.log_std_.detach().expand(B, n)
+        elif ctx_shape:
+            half = ctx_shape[-1] // 2
+            mu, ls = c[..., :half].reshape(B, n), c[..., half:].reshape(B, n)
         else: mu, ls = c[:, :n], c[:, n:]
         ref = torch.distributions.Normal(mu, ls.exp()).log_prob(x.reshape(B, n)).sum(1)
         out = {"C05.log_prob-is-gaussian-density": bool(torch.allclose(lp, ref, atol=1e-4)), "C05.mean-is-tensor": isinstance(mean, torch.Tensor)}
         if isinstance(mean, torch.Tensor):
             want_shape = tuple(ev) if c is None else (B,) + tuple(ev)
             out["C05.mean-shape"] = tuple(mean.shape) == want_shape
+            if tuple(mean.shape) == want_shape and c is not None:
+                out["C05.mean-is-location"] = bool(torch.allclose(mean.reshape(B, n), mu, atol=1e-6))
         return out
 
     def sample(h, rng):
-        return {"x": rng.normal(size=(B,) + tuple(ev)), "p:mean_": rng.normal(size=(1, n)), "p:log_std_": rng.normal(size=(1, n)) * 0.3, "context": rng.normal(size=(B, 2 * n)) * 0.5}
+        return {"x": rng.normal(size=(B,) + tuple(ev)), "p:mean_": rng.normal(size=(1, n)), "p:log_std_": rng.normal(size=(1, n)) * 0.3, "context": rng.normal(size=(B,) + (tuple(ctx_shape) if ctx_shape else (2 * n,))) * 0.5}
     cls = {"StandardNormal": DN.StandardNormal, "DiagonalNormal": DN.DiagonalNormal, "ConditionalDiagonalNormal": DN.ConditionalDiagonalNormal}[kind]
-    hn = Harness(f"{kind}[event={'x'.join(map(str, ev))}]", run, post, native_call=native_call, native_clauses=native_clauses, sample=sample,
+    hn = Harness(f"{kind}[event={'x'.join(map(str, ev))}{',context=' + 'x'.join(map(str, ctx_shape)) if ctx_shape else ''}]", run, post, native_call=native_call, native_clauses=native_clauses, sample=sample,
                  functions=[cls._log_prob, cls._sample, cls._mean, cls.__init__])
     hn.native_float32 = False
     return hn
@@ -598,7 +608,7 @@ def mg1_harness():
 
 def density_harnesses(tier):
     hs = [normal_harness("StandardNormal", []), normal_harness("DiagonalNormal", []), normal_harness("StandardNormal", [2]), normal_harness("StandardNormal", [2, 2]), normal_harness("DiagonalNormal", [2]), normal_harness("DiagonalNormal", [2, 2]),
-          normal_harness("ConditionalDiagonalNormal", [2]), normal_harness("ConditionalDiagonalNormal", [1, 2]),
+          normal_harness("ConditionalDiagonalNormal", [2]), normal_harness("ConditionalDiagonalNormal", [1, 2]), normal_harness("ConditionalDiagonalNormal", [2, 2], ctx_shape=(2, 4)),
           bernoulli_harness(1), bernoulli_harness(2), lotka_harness(), mg1_harness()]
     return hs
 
